@@ -47,6 +47,9 @@ class DP(ASTNode):
     items: tuple[ASTNode, ...] = ()
     tag: int = 0
 
+    def __len__(self) -> int:  # a container-like node: falsy in a boolean context while `items` is empty (it may still hold `one`)
+        return len(self.items)
+
 
 U = Universe("c14", [
     C("DL", DL, [F("v", PROP, alphabet=(0, 1)), F("nc", PROP, alphabet=(0,), compare=False), F("ni", PROP, init=False, default=7)]),
